@@ -31,6 +31,8 @@ PROFILE = {
     "n": (4, 12),
     "p_restart": 0.7,
     "p_load_after": 0.8,
+    "p_mutate": 0.04,
+    "p_proc2": 0.4,
     "stores": ("local", "local", "local+cache", "memory"),
 }
 
